@@ -21,7 +21,7 @@ VERIF = os.path.dirname(os.path.dirname(os.path.abspath(__file__)))
 REPO = os.environ.get("VERIF_REPO", "/repo")
 COQ = os.path.join(VERIF, "coq")
 BUILD = os.path.join(VERIF, "build")
-EVID = os.path.join(VERIF, "evidence")
+EVID = os.environ.get("VERIF_EVID_DIR") or os.path.join(VERIF, "evidence")
 REPLAYS = os.path.join(VERIF, "replays")
 NPROC = str(os.cpu_count() or 4)
 
@@ -362,15 +362,41 @@ def run_go_driver(exe, prop, tier, seed, out_path, test="TestVerifDriver", timeo
 # model run + comparison
 
 def run_model(exe, case_path):
+    """Runs the extracted model on every case line; the file is split into shards evaluated in
+    parallel (the model is pure, so shard order is irrelevant)."""
     with open(case_path, "rb") as f:
-        data = f.read()
-    rc, out, dt = run([exe], stdin=data, timeout=3000)
+        lines = f.read().split(b"\n")
+    lines = [l for l in lines if l]
+    nshard = max(1, min(int(NPROC), len(lines) // 50))
+    shards = [b"\n".join(lines[i::nshard]) + b"\n" for i in range(nshard)]
+    t0 = time.time()
+    procs = []
+    for sh in shards:
+        p = subprocess.Popen([exe], stdin=subprocess.PIPE, stdout=subprocess.PIPE, stderr=subprocess.STDOUT)
+        procs.append((p, sh))
+    import threading
+    outs = [b""] * len(procs)
+
+    def feed(i, p, sh):
+        try:
+            outs[i], _ = p.communicate(sh, timeout=3000)
+        except subprocess.TimeoutExpired:
+            p.kill()
+            outs[i] = b""
+
+    th = [threading.Thread(target=feed, args=(i, p, sh)) for i, (p, sh) in enumerate(procs)]
+    for t in th:
+        t.start()
+    for t in th:
+        t.join()
+    rc = max([p.returncode or 0 for p, _ in procs] + [0])
     res = {}
-    for line in out.splitlines():
-        if "\t" in line:
-            i, v = line.split("\t", 1)
-            res[i] = v
-    return rc, res, dt
+    for o in outs:
+        for line in o.decode("utf-8", "replace").splitlines():
+            if "\t" in line:
+                i, v = line.split("\t", 1)
+                res[i] = v
+    return rc, res, time.time() - t0
 
 
 def read_cases(case_path):
